@@ -224,6 +224,16 @@ func (s *TO0Server) acceptOwner(ctx context.Context, msg io.Reader) (*to0AcceptO
 	}
 
 	// Verify to0d hash matches to0d
+	if sig.To1d.Payload == nil {
+		captureErr(ctx, protocol.InvalidMessageErrCode, "")
+		return nil, fmt.Errorf("to1d payload is missing")
+	}
+	switch alg := sig.To1d.Payload.Val.To0dHash.Algorithm; alg {
+	case protocol.Sha256Hash, protocol.Sha384Hash:
+	default:
+		captureErr(ctx, protocol.InvalidMessageErrCode, "")
+		return nil, fmt.Errorf("unsupported to0d hash algorithm: %d", alg)
+	}
 	to0dHash := sig.To1d.Payload.Val.To0dHash.Algorithm.HashFunc().New()
 	if err := cbor.NewEncoder(to0dHash).Encode(sig.To0d.Val); err != nil {
 		return nil, fmt.Errorf("error hashing to0d structure: %w", err)
